@@ -100,6 +100,8 @@ type Spec struct {
 	ContinueVal string   // the Lean term a `continue` stands for ("" = continue unsupported)
 	ParamNames  []string // canonical names of the Go function's parameters, by position ("" = leave): a renamed parameter is aliased back
 	AppendEffect map[string]string // `x = append(x, v)` where v is this (canonical) identifier -> "leanVar := term" binding it performs
+	TypeSwitch  map[string]map[string]string // asserted expression (`x` of `switch v := x.(type)`) -> case type text ("nil", "string") -> Lean Bool "the dynamic type is this one"
+	InitCondByCall map[string]string // `if err := x.M(…); err != nil`: method-name suffix (".UnmarshalBinary") -> Lean Bool, whatever the receiver is called
 	CallRepl    map[string]string // call name -> Lean term for the call's value, whatever its arguments (their value is pinned by another unit)
 	AddrIsSome  bool     // pointers to local integers model optional values: `&x` is `some x`, `nil` (as a returned or assigned value) is `none`
 	Prelude     string   // Lean let-bindings placed before the translated statements (initial values of state variables)
@@ -200,6 +202,90 @@ func (t *tr) aliasesOnPathTo(target ast.Node) {
 		return false
 	}
 	walk(t.fd.Body.List)
+}
+
+// resolveHelper finds the same-file function or method a call names (methods: unique by name), with the receiver expression.
+func (t *tr) resolveHelper(c *ast.CallExpr) (*ast.FuncDecl, ast.Expr) {
+	if t.file == nil {
+		return nil, nil
+	}
+	switch f := c.Fun.(type) {
+	case *ast.Ident:
+		return findFunc(t.file, f.Name), nil
+	case *ast.SelectorExpr:
+		var fd *ast.FuncDecl
+		n := 0
+		for _, d := range t.file.Decls {
+			if g, ok := d.(*ast.FuncDecl); ok && g.Recv != nil && g.Name.Name == f.Sel.Name {
+				fd = g
+				n++
+			}
+		}
+		if n == 1 {
+			return fd, f.X
+		}
+	}
+	return nil, nil
+}
+
+// bindHelper makes a sub-translator for the body of helper fd called as c: parameters and receiver stand for the arguments.
+func (t *tr) bindHelper(fd *ast.FuncDecl, recv ast.Expr, c *ast.CallExpr, sp Spec) (*tr, bool) {
+	t2 := &tr{sp: sp, file: t.file, depth: t.depth + 1}
+	for k, v := range t.aliases {
+		t2.alias(k, v)
+	}
+	if recv != nil && fd.Recv != nil && len(fd.Recv.List) == 1 && len(fd.Recv.List[0].Names) == 1 {
+		t2.alias(fd.Recv.List[0].Names[0].Name, t.subst(recv))
+	}
+	i := 0
+	for _, f := range fd.Type.Params.List {
+		for _, n := range f.Names {
+			if i < len(c.Args) {
+				t2.alias(n.Name, t.subst(c.Args[i]))
+			}
+			i++
+		}
+	}
+	return t2, i == len(c.Args)
+}
+
+// inlineErr: for a call to a same-file helper whose last result is `error`, the Lean Bool "the helper returned an error",
+// obtained by translating the helper's body in errkind mode with its parameters standing for the arguments.
+func (t *tr) inlineErr(e ast.Expr) (string, bool) {
+	c, ok := e.(*ast.CallExpr)
+	if !ok || !t.sp.Inline || t.depth > 3 {
+		return "", false
+	}
+	fd, recv := t.resolveHelper(c)
+	if fd == nil || fd.Body == nil || fd.Type.Results == nil || len(fd.Type.Results.List) == 0 {
+		return "", false
+	}
+	last := fd.Type.Results.List[len(fd.Type.Results.List)-1]
+	if src(last.Type) != "error" {
+		return "", false
+	}
+	sp := t.sp
+	sp.Ret, sp.StateVars, sp.ParamNames, sp.Prelude = "errkind", nil, nil, ""
+	t2, ok := t.bindHelper(fd, recv, c, sp)
+	if !ok {
+		return "", false
+	}
+	out, done := "", false
+	func() {
+		defer func() {
+			if r := recover(); r != nil {
+				if _, isBail := r.(bail); !isBail {
+					panic(r)
+				}
+			}
+		}()
+		out = t2.block(fd.Body.List, "ErrKind.ok", "    ")
+		done = true
+	}()
+	if !done {
+		return "", false
+	}
+	return "((" + out + ") != ErrKind.ok)", true
 }
 
 // inlineCall translates a call to a single-result function or method declared in the same file by translating its body with the
@@ -348,6 +434,12 @@ func lookup(m map[string]string, key string) (string, bool) {
 	nk := norm(key)
 	for k, v := range m {
 		if norm(k) == nk {
+			return v, true
+		}
+	}
+	// keys starting with "…" match by suffix (`…[0].NotAfter`: the first element of whatever the slice is called)
+	for k, v := range m {
+		if strings.HasPrefix(k, "…") && strings.HasSuffix(nk, norm(strings.TrimPrefix(k, "…"))) {
 			return v, true
 		}
 	}
@@ -880,6 +972,55 @@ func (t *tr) initKey(st ast.Stmt) string {
 	return src(&cp)
 }
 
+// aliasIfInit: `if x := a.b; cond(x)` — x stands for a.b in cond (Canon units only).
+func (t *tr) aliasIfInit(i *ast.IfStmt) {
+	if !t.sp.Canon || i.Init == nil {
+		return
+	}
+	if as, ok := i.Init.(*ast.AssignStmt); ok && as.Tok == token.DEFINE && len(as.Lhs) == len(as.Rhs) {
+		for k := range as.Lhs {
+			if id, ok := as.Lhs[k].(*ast.Ident); ok && id.Name != "_" && pureAccess(as.Rhs[k]) {
+				t.alias(id.Name, t.subst(as.Rhs[k]))
+			}
+		}
+	}
+}
+
+// inlinedErr: inlineErr as a string ("" when it does not apply).
+func (t *tr) inlinedErr(e ast.Expr) string {
+	if b, ok := t.inlineErr(e); ok {
+		return b
+	}
+	return ""
+}
+
+// initCondByCall: `if err := x.M(…); err != nil` where Spec.InitCondByCall names the method M (whatever x is called).
+func (t *tr) initCondByCall(x *ast.IfStmt) (string, bool) {
+	as, ok := x.Init.(*ast.AssignStmt)
+	if !ok || len(as.Rhs) != 1 || len(t.sp.InitCondByCall) == 0 || src(as.Lhs[len(as.Lhs)-1]) != "err" {
+		return "", false
+	}
+	c, ok := as.Rhs[0].(*ast.CallExpr)
+	if !ok {
+		return "", false
+	}
+	name := src(c.Fun)
+	if sel, ok := c.Fun.(*ast.SelectorExpr); ok {
+		name = "." + sel.Sel.Name
+	}
+	for k, v := range t.sp.InitCondByCall {
+		if strings.HasSuffix(name, k) {
+			switch norm(src(x.Cond)) {
+			case "err!=nil":
+				return v, true
+			case "err==nil":
+				return "(!" + v + ")", true
+			}
+		}
+	}
+	return "", false
+}
+
 // errCallName: the Lean Bool of an ErrCalls call (without its effect), or "".
 func (t *tr) errCallName(e ast.Expr) string {
 	name, ok := prefixLookup(t.sp.ErrCalls, callName(e))
@@ -909,6 +1050,22 @@ func (t *tr) block(b []ast.Stmt, tail string, ind string) string {
 		}
 		if t.ignoredCall(x.X) {
 			return t.block(rest, tail, ind)
+		}
+		if c, ok := x.X.(*ast.CallExpr); ok && t.sp.Inline && t.depth <= 3 {
+			// a call to a same-file helper without results and without return statements: its statements, in place
+			if fd, recv := t.resolveHelper(c); fd != nil && fd.Body != nil && fd.Type.Results == nil && !hasReturn(fd.Body.List) {
+				if t2, ok := t.bindHelper(fd, recv, c, t.sp); ok {
+					saved := t.aliases
+					t.aliases = t2.aliases
+					t.depth++
+					spliced := t.block(fd.Body.List, "\x00", ind)
+					t.depth--
+					t.aliases = saved
+					if strings.HasSuffix(spliced, "\x00") {
+						return strings.TrimSuffix(spliced, "\x00") + t.block(rest, tail, ind)
+					}
+				}
+			}
 		}
 		failf(s, "unsupported expression statement %s", src(s))
 	case *ast.RangeStmt:
@@ -995,6 +1152,22 @@ func (t *tr) block(b []ast.Stmt, tail string, ind string) string {
 			if c, ok := x.Rhs[0].(*ast.CallExpr); ok && src(c.Fun) == "append" && len(c.Args) >= 2 {
 				if eff, ok := t.sp.AppendEffect[norm(src(t.subst(c.Args[len(c.Args)-1])))]; ok {
 					return "let " + eff + "\n" + ind + t.block(rest, tail, ind)
+				}
+			}
+		}
+		if len(x.Rhs) == 1 && src(x.Lhs[len(x.Lhs)-1]) == "err" {
+			if _, known := prefixLookup(t.sp.ErrCalls, callName(t.subst(x.Rhs[0]))); !known {
+				if b, ok := t.inlineErr(x.Rhs[0]); ok {
+					t.pendingErr = b
+					if t.opaque == nil {
+						t.opaque = map[string]bool{}
+					}
+					for _, l := range x.Lhs[:len(x.Lhs)-1] {
+						if id, isId := l.(*ast.Ident); isId && id.Name != "_" {
+							t.opaque[id.Name] = true
+						}
+					}
+					return t.block(rest, tail, ind)
 				}
 			}
 		}
@@ -1156,6 +1329,10 @@ func (t *tr) block(b []ast.Stmt, tail string, ind string) string {
 				c = r
 			} else if as0, ok0 := x.Init.(*ast.AssignStmt); ok0 && len(as0.Rhs) == 1 && src(x.Cond) == "err != nil" && src(as0.Lhs[len(as0.Lhs)-1]) == "err" && t.errCallName(as0.Rhs[0]) != "" {
 				c = t.errCallName(as0.Rhs[0])
+			} else if r, ok := t.initCondByCall(x); ok {
+				c = r
+			} else if as1, ok1 := x.Init.(*ast.AssignStmt); ok1 && len(as1.Rhs) == 1 && src(x.Cond) == "err != nil" && src(as1.Lhs[len(as1.Lhs)-1]) == "err" && t.inlinedErr(as1.Rhs[0]) != "" {
+				c = t.inlinedErr(as1.Rhs[0])
 			} else if as, ok := x.Init.(*ast.AssignStmt); ok && as.Tok == token.DEFINE && len(as.Lhs) == 1 && len(as.Rhs) == 1 {
 				// `if v := e; cond`: bind v, then the ordinary translation
 				pre := "let " + t.lvalue(as.Lhs[0]) + " := " + t.expr(as.Rhs[0]) + "\n" + ind
@@ -1279,6 +1456,64 @@ func (t *tr) block(b []ast.Stmt, tail string, ind string) string {
 			return out + t.block(append(append([]ast.Stmt{}, eff[defIdx]...), rest...), tail, ind)
 		}
 		return out + t.block(rest, tail, ind)
+	}
+	if ts, ok := s.(*ast.TypeSwitchStmt); ok && ts.Init == nil {
+		// `switch [v :=] x.(type) { case T: … }`: an if-chain over the Spec's per-type conditions, in source order
+		var asserted ast.Expr
+		switch a := ts.Assign.(type) {
+		case *ast.AssignStmt:
+			if len(a.Rhs) == 1 {
+				if ta, ok := a.Rhs[0].(*ast.TypeAssertExpr); ok {
+					asserted = ta.X
+				}
+				if id, ok := a.Lhs[0].(*ast.Ident); ok {
+					if t.opaque == nil {
+						t.opaque = map[string]bool{}
+					}
+					t.opaque[id.Name] = true
+				}
+			}
+		case *ast.ExprStmt:
+			if ta, ok := a.X.(*ast.TypeAssertExpr); ok {
+				asserted = ta.X
+			}
+		}
+		if asserted != nil {
+			var conds map[string]string
+			for k, v := range t.sp.TypeSwitch {
+				if norm(k) == norm(src(t.subst(asserted))) {
+					conds = v
+				}
+			}
+			if conds != nil {
+				out := ""
+				var def *ast.CaseClause
+				for _, c := range ts.Body.List {
+					cc := c.(*ast.CaseClause)
+					if cc.List == nil {
+						def = cc
+						continue
+					}
+					var cs []string
+					for _, e := range cc.List {
+						b, ok := conds[norm(src(e))]
+						if !ok {
+							failf(cc, "type switch over %s: no condition for case %s", src(asserted), src(e))
+						}
+						cs = append(cs, b)
+					}
+					cnd := cs[0]
+					if len(cs) > 1 {
+						cnd = "(" + strings.Join(cs, " || ") + ")"
+					}
+					out += "if " + cnd + " then\n" + ind + "  " + t.block(append(append([]ast.Stmt{}, cc.Body...), rest...), tail, ind+"  ") + "\n" + ind + "else\n" + ind
+				}
+				if def != nil {
+					return out + t.block(append(append([]ast.Stmt{}, def.Body...), rest...), tail, ind)
+				}
+				return out + t.block(rest, tail, ind)
+			}
+		}
 	}
 	failf(s, "unsupported statement %T: %s", s, src(s))
 	return ""
